@@ -564,14 +564,20 @@ theorem Book.finish {s s' : St} {i : Nat} {f : Fin} (h : Book n maxConc cfg s)
     · exact (h.finish_erase hi).congr rfl rfl rfl rfl rfl rfl rfl rfl rfl rfl
 
 
+/-- What the timer thread does in a state satisfying the bookkeeping invariant (every heap entry is
+live): failed refresh checkpoint → fatal; event already set → the branch is left PENDING and nothing is
+started; otherwise the branch is resubmitted. -/
 theorem timerFire_spec {s s' : St} {i : Nat} {ok : Bool} (hB : Book n maxConc cfg s)
     (h : timerFire s i ok = some s') :
     ∃ t, (t, i) ∈ s.timers ∧ t ≤ s.clock ∧ s.status i = .suspendedUntil t ∧
-      ((ok = true ∧ s.out = none ∧
+      ((ok = true ∧ s.evt = false ∧
           s' = { s with timers := s.timers.erase (t, i),
                         status := fun x => if x = i then .running else s.status x,
                         queue := s.queue ++ [i] }) ∨
-       ((ok = false ∨ s.out.isSome = true) ∧
+       (ok = true ∧ s.evt = true ∧
+          s' = { s with timers := s.timers.erase (t, i),
+                        status := fun x => if x = i then .pending else s.status x }) ∨
+       (ok = false ∧
           s' = { s with timers := s.timers.erase (t, i),
                         status := fun x => if x = i then .pending else s.status x,
                         fatal := true, evt := true })) := by
@@ -600,25 +606,18 @@ theorem timerFire_spec {s s' : St} {i : Nat} {ok : Bool} (hB : Book n maxConc cf
         have hle : t ≤ s.clock := by simpa using hmem.2
         refine ⟨t, hmem.1, hle, hlive, ?_⟩
         simp only [hlive, hle, if_true] at h
-        split at h
-        · rename_i hc
-          left
-          cases h
-          refine ⟨hc.1, ?_, rfl⟩
-          have := hc.2
-          cases ho : s.out
-          · rfl
-          · rw [ho] at this; simp at this
-        · rename_i hc
-          right
-          cases h
-          refine ⟨?_, rfl⟩
-          cases ok
-          · left; rfl
-          · right
-            cases ho : s.out
-            · exact absurd ⟨rfl, by rw [ho]; rfl⟩ hc
-            · rfl
+        cases ok
+        · right; right
+          simp only [Bool.false_eq_true, not_false_eq_true, if_true, Option.some.injEq] at h
+          exact ⟨rfl, h.symm⟩
+        · simp only [not_true_eq_false, if_false] at h
+          cases hev : s.evt
+          · left
+            simp only [hev, Bool.false_eq_true, if_false, Option.some.injEq] at h
+            exact ⟨rfl, rfl, h.symm⟩
+          · right; left
+            simp only [hev, if_true, Option.some.injEq] at h
+            exact ⟨rfl, rfl, h.symm⟩
 
 theorem Book.timer_core {s : St} (h : Book n maxConc cfg s) {t i : Nat} (hm : (t, i) ∈ s.timers)
     (b : BSt) (q' : List Nat)
@@ -726,8 +725,9 @@ theorem Book.timer_core {s : St} (h : Book n maxConc cfg s) {t i : Nat} (hm : (t
 
 theorem Book.timerFire {s s' : St} {i : Nat} {ok : Bool} (h : Book n maxConc cfg s)
     (hs : timerFire s i ok = some s') : Book n maxConc cfg s' := by
-  rcases timerFire_spec h hs with ⟨t, hm, _, _, ⟨_, _, rfl⟩ | ⟨_, rfl⟩⟩
+  rcases timerFire_spec h hs with ⟨t, hm, _, _, ⟨_, _, rfl⟩ | ⟨_, _, rfl⟩ | ⟨_, rfl⟩⟩
   · exact h.timer_core hm .running _ (Or.inl ⟨rfl, rfl⟩)
+  · exact h.timer_core hm .pending _ (Or.inr ⟨rfl, rfl⟩)
   · exact (h.timer_core hm .pending _ (Or.inr ⟨rfl, rfl⟩)).congr rfl rfl rfl rfl rfl rfl rfl rfl rfl rfl
 
 theorem Book.tick {s s' : St} {d : Nat} (h : Book n maxConc cfg s)
@@ -916,8 +916,14 @@ structure Inv (n maxConc : Nat) (cfg : Policy.Cfg) (s : St) : Prop extends Book 
   /-- the event is only set by a fatal failure, a suspend decision or the decided policy -/
   evt_sound : s.evt = true → s.fatal = true ∨ s.suspendExc.isSome = true ∨
     Policy.shouldComplete cfg s.succ s.fail n = true
-  /-- PENDING is only visible after a failed resubmission, which is fatal -/
-  pend_fatal : ∀ i, s.status i = .pending → s.fatal = true
+  /-- PENDING is only visible once the completion event is set: after a failed resubmission (fatal),
+  or when the timer thread bails out because a decision has already been taken -/
+  pend_evt : ∀ i, s.status i = .pending → s.evt = true
+  /-- once a suspend decision is taken nothing is executing, queued or RUNNING — for good -/
+  susp_idle : s.suspendExc.isSome = true →
+    s.active = [] ∧ s.queue = [] ∧ ∀ i, i < n → s.status i ≠ .running
+  /-- … and the counters no longer move, so the policy stays undecided -/
+  susp_undecided : s.suspendExc.isSome = true → Policy.shouldComplete cfg s.succ s.fail n = false
   /-- while the event is not set, neither the policy nor `should_execution_suspend` fires -/
   undecided : 0 < n → s.evt = false →
     Policy.shouldComplete cfg s.succ s.fail n = false ∧ shouldSuspend s = none
@@ -955,7 +961,9 @@ theorem Inv.init : Inv n maxConc cfg (init n maxConc cfg) where
   fatal_evt := by simp [Par.init]
   susp_evt := by simp [Par.init]
   evt_sound := by simp [Par.init]
-  pend_fatal := by intro i; simp only [Par.init]; split <;> simp
+  pend_evt := by intro i; simp only [Par.init]; split <;> simp
+  susp_idle := by simp [Par.init]
+  susp_undecided := by simp [Par.init]
   undecided := by
     intro hn _
     refine ⟨sc_init_false hn, ?_⟩
@@ -995,7 +1003,11 @@ theorem Inv.begin_ {s s' : St} {i : Nat} (h : Inv n maxConc cfg s) (hs : begin_ 
     fatal_evt := h.fatal_evt
     susp_evt := h.susp_evt
     evt_sound := h.evt_sound
-    pend_fatal := h.pend_fatal
+    pend_evt := h.pend_evt
+    susp_idle := fun hk => by
+      have := (h.susp_idle hk).2.1
+      rw [hq] at this; cases this
+    susp_undecided := h.susp_undecided
     undecided := fun hn he => by
       have := h.undecided hn he
       exact ⟨this.1, (shouldSuspend_congr rfl (fun _ _ => rfl)).trans this.2⟩
@@ -1016,7 +1028,9 @@ theorem Inv.tick {s s' : St} {d : Nat} (h : Inv n maxConc cfg s) (hs : tick s d 
     fatal_evt := h.fatal_evt
     susp_evt := h.susp_evt
     evt_sound := h.evt_sound
-    pend_fatal := h.pend_fatal
+    pend_evt := h.pend_evt
+    susp_idle := h.susp_idle
+    susp_undecided := h.susp_undecided
     undecided := fun hn he => by
       have := h.undecided hn he
       exact ⟨this.1, (shouldSuspend_congr rfl (fun _ _ => rfl)).trans this.2⟩
@@ -1029,17 +1043,25 @@ theorem Inv.tick {s s' : St} {d : Nat} (h : Inv n maxConc cfg s) (hs : tick s d 
 theorem Inv.timerFire {s s' : St} {i : Nat} {ok : Bool} (h : Inv n maxConc cfg s)
     (hs : timerFire s i ok = some s') : Inv n maxConc cfg s' := by
   have hB := h.toBook.timerFire hs
-  rcases timerFire_spec h.toBook hs with ⟨t, hm, _, hst, ⟨_, hout, rfl⟩ | ⟨_, rfl⟩⟩
+  rcases timerFire_spec h.toBook hs with ⟨t, hm, _, hst, ⟨_, hev, rfl⟩ | ⟨_, hev, rfl⟩ | ⟨_, rfl⟩⟩
   · have hin : i < n := h.tim_lt t i hm
+    have hout : s.out = none := by
+      cases ho : s.out
+      · rfl
+      · have := (h.out_evt (by rw [ho]; rfl)).1; rw [hev] at this; cases this
+    have hns : s.suspendExc.isSome = true → False := by
+      intro hk; have := h.susp_evt hk; rw [hev] at this; cases this
     exact {
       toBook := hB
       fatal_evt := h.fatal_evt
       susp_evt := h.susp_evt
       evt_sound := h.evt_sound
-      pend_fatal := fun x hx => by
+      pend_evt := fun x hx => by
         by_cases hxi : x = i
         · simp [hxi] at hx
-        · simp only [hxi, if_false] at hx; exact h.pend_fatal x hx
+        · simp only [hxi, if_false] at hx; exact h.pend_evt x hx
+      susp_idle := fun hk => (hns hk).elim
+      susp_undecided := fun hk => (hns hk).elim
       undecided := fun hn he => by
         refine ⟨(h.undecided hn he).1, ?_⟩
         apply shouldSuspend_of_running (i := i)
@@ -1054,10 +1076,54 @@ theorem Inv.timerFire {s s' : St} {i : Nat} {ok : Bool} (h : Inv n maxConc cfg s
   · have hin : i < n := h.tim_lt t i hm
     exact {
       toBook := hB
+      fatal_evt := h.fatal_evt
+      susp_evt := h.susp_evt
+      evt_sound := h.evt_sound
+      pend_evt := fun x hx => by
+        by_cases hxi : x = i
+        · exact hev
+        · simp only [hxi, if_false] at hx; exact h.pend_evt x hx
+      susp_idle := fun hk => by
+        have h0 := h.susp_idle hk
+        refine ⟨h0.1, h0.2.1, fun x hx => ?_⟩
+        simp only
+        by_cases hxi : x = i
+        · rw [if_pos hxi]; intro e; cases e
+        · rw [if_neg hxi]; exact h0.2.2 x hx
+      susp_undecided := h.susp_undecided
+      undecided := fun _ he => by
+        have : s.evt = false := he
+        rw [hev] at this; cases this
+      indef := fun hk => absurd hst ((h.indef hk i hin).2.2 t)
+      out_res := fun items ho => by
+        have := h.out_res items ho
+        refine ⟨this.1, this.2.1, fun x => ?_⟩
+        have hx := this.2.2 x
+        by_cases hxi : x = i
+        · subst hxi
+          rw [hst] at hx
+          constructor <;> intro e
+          · exact absurd (hx.1 e) (by intro e'; cases e')
+          · exact absurd (hx.2 e) (by intro e'; cases e')
+        · simp only [hxi, if_false]; exact hx
+      out_fatal := h.out_fatal
+      out_susp := h.out_susp
+      out_evt := h.out_evt }
+  · have hin : i < n := h.tim_lt t i hm
+    exact {
+      toBook := hB
       fatal_evt := fun _ => rfl
       susp_evt := fun _ => rfl
       evt_sound := fun _ => Or.inl rfl
-      pend_fatal := fun _ _ => rfl
+      pend_evt := fun _ _ => rfl
+      susp_idle := fun hk => by
+        have h0 := h.susp_idle hk
+        refine ⟨h0.1, h0.2.1, fun x hx => ?_⟩
+        simp only
+        by_cases hxi : x = i
+        · rw [if_pos hxi]; intro e; cases e
+        · rw [if_neg hxi]; exact h0.2.2 x hx
+      susp_undecided := h.susp_undecided
       undecided := fun _ he => by cases he
       indef := fun hk => absurd hst ((h.indef hk i hin).2.2 t)
       out_res := fun items ho => by
@@ -1090,11 +1156,19 @@ theorem Inv.wake {s s' : St} (h : Inv n maxConc cfg s) (hs : wake s = some s') :
     fatal_evt := h.fatal_evt
     susp_evt := h.susp_evt
     evt_sound := h.evt_sound
-    pend_fatal := fun x hx => by
+    pend_evt := fun x hx => by
       simp only at hx
       by_cases hq : x ∈ s.queue
       · rw [if_pos hq] at hx; cases hx
-      · rw [if_neg hq] at hx; exact h.pend_fatal x hx
+      · rw [if_neg hq] at hx; exact h.pend_evt x hx
+    susp_idle := fun hk => by
+      have h0 := h.susp_idle hk
+      refine ⟨h0.1, rfl, fun x hx => ?_⟩
+      simp only
+      by_cases hq : x ∈ s.queue
+      · rw [if_pos hq]; intro e; cases e
+      · rw [if_neg hq]; exact h0.2.2 x hx
+    susp_undecided := h.susp_undecided
     undecided := fun _ he => by rw [hevt] at he; cases he
     indef := fun hk x hx => by
       simp only
@@ -1147,6 +1221,24 @@ theorem Inv.wake {s s' : St} (h : Inv n maxConc cfg s) (hs : wake s = some s') :
     out_evt := fun _ => ⟨hevt, rfl⟩ }
 
 
+/-- When `should_execution_suspend` fires in a state satisfying the bookkeeping invariant, no task is
+queued or executing. -/
+theorem idle_of_shouldSuspend {s : St} {k : Option Nat} (hB : Book n maxConc cfg s)
+    (hk : shouldSuspend s = some k) : s.active = [] ∧ s.queue = [] := by
+  have hss := (shouldSuspend_some hk).1
+  rw [hB.hn] at hss
+  constructor
+  · cases ha : s.active with
+    | nil => rfl
+    | cons x xs =>
+      have hx : x ∈ s.active := by rw [ha]; simp
+      exact absurd (hB.run x (Or.inl hx)) (hss x (hB.act_lt x hx)).2
+  · cases hq : s.queue with
+    | nil => rfl
+    | cons x xs =>
+      have hx : x ∈ s.queue := by rw [hq]; simp
+      exact absurd (hB.run x (Or.inr hx)) (hss x (hB.q_lt x hx)).2
+
 /-- A status a finishing task can leave behind. -/
 def FinalSt (b : BSt) : Prop :=
   b = .completed ∨ b = .failed ∨ b = .suspended ∨ ∃ t, b = .suspendedUntil t
@@ -1186,11 +1278,16 @@ theorem Inv.finish_core {s : St} (h : Inv n maxConc cfg s) {i : Nat} (hi : i ∈
     exact sc_mono hb hle hsc0
   have hbp : b ≠ .pending := by
     rcases hb with rfl | rfl | rfl | ⟨t, rfl⟩ <;> intro e <;> cases e
-  have hpend : ∀ x, (if x = i then b else s.status x) = .pending → s.fatal = true := by
+  have hpend : ∀ x, (if x = i then b else s.status x) = .pending → s.evt = true := by
     intro x hx
     by_cases hxi : x = i
     · rw [if_pos hxi] at hx; exact absurd hx hbp
-    · rw [if_neg hxi] at hx; exact h.pend_fatal x hx
+    · rw [if_neg hxi] at hx; exact h.pend_evt x hx
+  have hnone : s.suspendExc = none := by
+    cases hk : s.suspendExc
+    · rfl
+    · have := (h.susp_idle (by rw [hk]; rfl)).1
+      rw [this] at hi; cases hi
   have hindef0 : s.suspendExc ≠ some none := by
     intro hk
     exact (h.indef hk i hin).1 hrun
@@ -1233,11 +1330,13 @@ theorem Inv.finish_core {s : St} (h : Inv n maxConc cfg s) {i : Nat} (hi : i ∈
       evt_sound := fun _ => by
         right; right; show Policy.shouldComplete cfg s1.succ s1.fail n = true
         rw [e_sc, e_fl]; exact hc
-      pend_fatal := fun x hx => by
-        show s1.fatal = true
-        rw [e_fat]; apply hpend x
-        have : s1.status x = .pending := hx
-        rw [e_st] at this; exact this
+      pend_evt := fun _ _ => rfl
+      susp_idle := fun hk => by
+        have : s1.suspendExc.isSome = true := hk
+        rw [e_sx, hnone] at this; cases this
+      susp_undecided := fun hk => by
+        have : s1.suspendExc.isSome = true := hk
+        rw [e_sx, hnone] at this; cases this
       undecided := fun _ he => by cases he
       indef := fun hk => by
         have : s1.suspendExc = some none := hk
@@ -1267,11 +1366,17 @@ theorem Inv.finish_core {s : St} (h : Inv n maxConc cfg s) {i : Nat} (hi : i ∈
       fatal_evt := fun _ => rfl
       susp_evt := fun _ => rfl
       evt_sound := fun _ => Or.inr (Or.inl rfl)
-      pend_fatal := fun x hx => by
-        show s1.fatal = true
-        rw [e_fat]; apply hpend x
-        have : s1.status x = .pending := hx
-        rw [e_st] at this; exact this
+      pend_evt := fun _ _ => rfl
+      susp_idle := fun _ => by
+        have hid := idle_of_shouldSuspend hB1 hk
+        have hss := (shouldSuspend_some hk).1
+        rw [e_n, h.hn] at hss
+        show s1.active = [] ∧ s1.queue = [] ∧ ∀ x, x < n → s1.status x ≠ .running
+        exact ⟨hid.1, hid.2, fun x hx => (hss x hx).2⟩
+      susp_undecided := fun _ => by
+        show Policy.shouldComplete cfg s1.succ s1.fail n = false
+        rw [e_cfg, h.hcfg, e_n, h.hn] at hc
+        exact hc
       undecided := fun _ he => by cases he
       indef := fun hk' x hx => by
         have : some k = some none := hk'
@@ -1309,9 +1414,11 @@ theorem Inv.finish_core {s : St} (h : Inv n maxConc cfg s) {i : Nat} (hi : i ∈
         · exact Or.inl h1
         · exact Or.inr (Or.inl h1)
         · exact Or.inr (Or.inr (hmono h1))
-      pend_fatal := fun x hx => by
-        rw [e_fat]; apply hpend x
+      pend_evt := fun x hx => by
+        rw [e_evt]; apply hpend x
         rw [e_st] at hx; exact hx
+      susp_idle := by rw [e_sx, hnone]; intro hk; cases hk
+      susp_undecided := by rw [e_sx, hnone]; intro hk; cases hk
       undecided := fun _ _ => by
         rw [e_sc, e_fl]; exact ⟨hc, hk⟩
       indef := fun hk => by
@@ -1384,7 +1491,11 @@ theorem Inv.finish {s s' : St} {i : Nat} {f : Fin} (h : Inv n maxConc cfg s)
       fatal_evt := h.fatal_evt
       susp_evt := h.susp_evt
       evt_sound := h.evt_sound
-      pend_fatal := h.pend_fatal
+      pend_evt := h.pend_evt
+      susp_idle := fun hk => by
+        have := (h.susp_idle hk).1
+        rw [this] at hi; cases hi
+      susp_undecided := h.susp_undecided
       undecided := fun hn he => by
         have := h.undecided hn he
         exact ⟨this.1, (shouldSuspend_congr rfl (fun _ _ => rfl)).trans this.2⟩
@@ -1398,7 +1509,11 @@ theorem Inv.finish {s s' : St} {i : Nat} {f : Fin} (h : Inv n maxConc cfg s)
       fatal_evt := fun _ => rfl
       susp_evt := fun _ => rfl
       evt_sound := fun _ => Or.inl rfl
-      pend_fatal := fun _ _ => rfl
+      pend_evt := fun _ _ => rfl
+      susp_idle := fun hk => by
+        have := (h.susp_idle hk).1
+        rw [this] at hi; cases hi
+      susp_undecided := h.susp_undecided
       undecided := fun _ he => by cases he
       indef := h.indef
       out_res := h.out_res
@@ -1415,11 +1530,15 @@ theorem Inv.cancel {s s' : St} {i : Nat} (h : Inv n maxConc cfg s)
     fatal_evt := h.fatal_evt
     susp_evt := h.susp_evt
     evt_sound := h.evt_sound
-    pend_fatal := fun x hx => by
+    pend_evt := fun x hx => by
       simp only at hx
       by_cases hxi : x = i
       · rw [if_pos hxi] at hx; cases hx
-      · rw [if_neg hxi] at hx; exact h.pend_fatal x hx
+      · rw [if_neg hxi] at hx; exact h.pend_evt x hx
+    susp_idle := fun hk => by
+      have := (h.susp_idle hk).2.1
+      rw [this] at hi; cases hi
+    susp_undecided := h.susp_undecided
     undecided := fun _ he => by rw [hevt] at he; cases he
     indef := fun hk x hx => by
       simp only
@@ -1464,10 +1583,10 @@ theorem status_step {s s' : St} {a : Act} (hB : Book n maxConc cfg s) (hs : step
     (x : Nat) :
     s'.status x = s.status x ∨
     (∃ f b, a = .finish x f ∧ finSt f = some b ∧ s.status x = .running ∧ s'.status x = b) ∨
-    (∃ t, a = .timerFire x true ∧ s.out = none ∧ s.status x = .suspendedUntil t ∧ t ≤ s.clock ∧
+    (∃ t, a = .timerFire x true ∧ s.evt = false ∧ s.status x = .suspendedUntil t ∧ t ≤ s.clock ∧
         s'.status x = .running) ∨
-    (∃ ok t, a = .timerFire x ok ∧ (ok = false ∨ s.out.isSome = true) ∧
-        s.status x = .suspendedUntil t ∧ s'.status x = .pending ∧ s'.fatal = true) ∨
+    (∃ ok t, a = .timerFire x ok ∧ (ok = false ∨ s.evt = true) ∧
+        s.status x = .suspendedUntil t ∧ s'.status x = .pending ∧ s'.evt = true) ∨
     ((a = .wake ∨ a = .cancel x) ∧ x ∈ s.queue ∧ s.status x = .running ∧
         s'.status x = .suspended) := by
   cases a with
@@ -1486,16 +1605,21 @@ theorem status_step {s s' : St} {a : Act} (hB : Book n maxConc cfg s) (hs : step
     · exact Or.inl rfl
     · exact Or.inl rfl
   | timerFire i ok =>
-    rcases timerFire_spec hB hs with ⟨t, hm, hle, hst, ⟨hok, hout, rfl⟩ | ⟨hc, rfl⟩⟩
+    rcases timerFire_spec hB hs with ⟨t, hm, hle, hst, ⟨hok, hev, rfl⟩ | ⟨hok, hev, rfl⟩ | ⟨hok, rfl⟩⟩
     · by_cases hx : x = i
       · subst hx; subst hok
         right; right; left
-        exact ⟨t, rfl, hout, hst, hle, by simp⟩
+        exact ⟨t, rfl, hev, hst, hle, by simp⟩
       · left; simp [hx]
     · by_cases hx : x = i
       · subst hx
         right; right; right; left
-        exact ⟨ok, t, rfl, hc, hst, by simp, rfl⟩
+        exact ⟨ok, t, rfl, Or.inr hev, hst, by simp, hev⟩
+      · left; simp [hx]
+    · by_cases hx : x = i
+      · subst hx
+        right; right; right; left
+        exact ⟨ok, t, rfl, Or.inl hok, hst, by simp, rfl⟩
       · left; simp [hx]
   | cancel i =>
     rcases cancel_spec hs with ⟨_, _, hi, rfl⟩
@@ -1537,10 +1661,11 @@ theorem failed_step {s s' : St} {a : Act} (hB : Book n maxConc cfg s) (hs : step
   · rw [e] at h1; cases h1
   · rw [e] at h1; cases h1
 
-/-- A branch becomes RUNNING again only through the timer thread's resubmission. -/
+/-- A branch becomes RUNNING again only through the timer thread's resubmission, which only happens
+while the completion event is not set. -/
 theorem running_step {s s' : St} {a : Act} (hB : Book n maxConc cfg s) (hs : step s a = some s')
     {x : Nat} (h0 : s.status x ≠ .running) (h1 : s'.status x = .running) :
-    a = .timerFire x true ∧ s.out = none ∧ ∃ t, s.status x = .suspendedUntil t ∧ t ≤ s.clock := by
+    a = .timerFire x true ∧ s.evt = false ∧ ∃ t, s.status x = .suspendedUntil t ∧ t ≤ s.clock := by
   rcases status_step hB hs x with e | ⟨f, b, rfl, hfb, hr, e⟩ | ⟨t, ha, ho, hst, hle, e⟩ |
       ⟨ok, t, _, _, _, e, _⟩ | ⟨_, _, hr, e⟩
   · rw [e] at h1; exact absurd h1 h0
@@ -1593,7 +1718,8 @@ theorem mono_step {s s' : St} {a : Act} (hB : Book n maxConc cfg s) (hs : step s
     · exact ⟨id, id, fun _ => id, id⟩
     · exact ⟨fun _ => rfl, fun _ => rfl, fun _ => id, id⟩
   | timerFire i ok =>
-    rcases timerFire_spec hB hs with ⟨t, hm, hle, hst, ⟨hok, hout, rfl⟩ | ⟨hc, rfl⟩⟩
+    rcases timerFire_spec hB hs with ⟨t, hm, hle, hst, ⟨hok, hev, rfl⟩ | ⟨hok, hev, rfl⟩ | ⟨hok, rfl⟩⟩
+    · exact ⟨id, id, fun _ => id, id⟩
     · exact ⟨id, id, fun _ => id, id⟩
     · exact ⟨fun _ => rfl, fun _ => rfl, fun _ => id, id⟩
   | cancel i =>
@@ -1645,7 +1771,8 @@ theorem suspend_decision {s s' : St} {a : Act} (hB : Book n maxConc cfg s)
     · exact absurd rfl hne
     · exact absurd rfl hne
   | timerFire i ok =>
-    rcases timerFire_spec hB hs with ⟨t, hm, hle, hst, ⟨hok, hout, rfl⟩ | ⟨hc, rfl⟩⟩
+    rcases timerFire_spec hB hs with ⟨t, hm, hle, hst, ⟨hok, hev, rfl⟩ | ⟨hok, hev, rfl⟩ | ⟨hok, rfl⟩⟩
+    · exact absurd rfl hne
     · exact absurd rfl hne
     · exact absurd rfl hne
   | cancel i =>
@@ -1654,24 +1781,6 @@ theorem suspend_decision {s s' : St} {a : Act} (hB : Book n maxConc cfg s)
   | wake =>
     rcases wake_spec hs with ⟨_, ho, rfl⟩
     exact absurd rfl hne
-
-/-- When `should_execution_suspend` fires in a state satisfying the bookkeeping invariant, no task is
-queued or executing. -/
-theorem idle_of_shouldSuspend {s : St} {k : Option Nat} (hB : Book n maxConc cfg s)
-    (hk : shouldSuspend s = some k) : s.active = [] ∧ s.queue = [] := by
-  have hss := (shouldSuspend_some hk).1
-  rw [hB.hn] at hss
-  constructor
-  · cases ha : s.active with
-    | nil => rfl
-    | cons x xs =>
-      have hx : x ∈ s.active := by rw [ha]; simp
-      exact absurd (hB.run x (Or.inl hx)) (hss x (hB.act_lt x hx)).2
-  · cases hq : s.queue with
-    | nil => rfl
-    | cons x xs =>
-      have hx : x ∈ s.queue := by rw [hq]; simp
-      exact absurd (hB.run x (Or.inr hx)) (hss x (hB.q_lt x hx)).2
 
 /-! ## the completion policy -/
 
@@ -1696,7 +1805,8 @@ theorem counters_step {s s' : St} {a : Act} (hB : Book n maxConc cfg s) (hs : st
     · exact Or.inl ⟨rfl, rfl⟩
     · exact Or.inl ⟨rfl, rfl⟩
   | timerFire i ok =>
-    rcases timerFire_spec hB hs with ⟨t, hm, hle, hst, ⟨hok, hout, rfl⟩ | ⟨hc, rfl⟩⟩
+    rcases timerFire_spec hB hs with ⟨t, hm, hle, hst, ⟨hok, hev, rfl⟩ | ⟨hok, hev, rfl⟩ | ⟨hok, rfl⟩⟩
+    · exact Or.inl ⟨rfl, rfl⟩
     · exact Or.inl ⟨rfl, rfl⟩
     · exact Or.inl ⟨rfl, rfl⟩
   | cancel i =>
@@ -1731,12 +1841,8 @@ theorem policy_decided_step {s s' : St} {a : Act} (h : Inv n maxConc cfg s)
 theorem running_of_not_evt {s : St} (h : Inv n maxConc cfg s) (hn : 0 < n) (he : s.evt = false) :
     ∃ i, i < n ∧ s.status i = .running := by
   have hu := h.undecided hn he
-  have hnf : s.fatal = false := by
-    cases hf : s.fatal
-    · rfl
-    · have := h.fatal_evt hf; rw [he] at this; cases this
   rcases shouldSuspend_none hu.2 with ⟨i, hi, hp | hr⟩ | hall
-  · have := h.pend_fatal i hp; rw [hnf] at this; cases this
+  · have := h.pend_evt i hp; rw [he] at this; cases this
   · exact ⟨i, by rw [← h.hn]; exact hi, hr⟩
   · apply Decidable.byContradiction
     intro hex
@@ -1747,7 +1853,7 @@ theorem running_of_not_evt {s : St} (h : Inv n maxConc cfg s) (hn : 0 < n) (he :
       intro i hi
       have h1 := hall i hi
       have h2 : s.status i ≠ .pending := by
-        intro hp; have := h.pend_fatal i hp; rw [hnf] at this; cases this
+        intro hp; have := h.pend_evt i hp; rw [he] at this; cases this
       have h3 : s.status i ≠ .running := fun hr => hex ⟨i, hi, hr⟩
       cases hst : s.status i with
       | pending => exact absurd hst h2
@@ -1814,13 +1920,15 @@ theorem NoOrphan.step {s s' : St} {a : Act} (hB : Book n maxConc cfg s) (h : NoO
     · have := ha i rfl; rw [he] at this; cases this
     · cases he'
   | timerFire i ok =>
-    rcases timerFire_spec hB hs with ⟨t, hm, hle, hst, ⟨hok, hout, rfl⟩ | ⟨hc, rfl⟩⟩
+    rcases timerFire_spec hB hs with ⟨t, hm, hle, hst, ⟨hok, hev, rfl⟩ | ⟨hok, hev, rfl⟩ | ⟨hok, rfl⟩⟩
     · by_cases hxi : x = i
       · right; rw [hxi]; simp
       · simp only [hxi, if_false] at hr
         rcases h he x hx hr with hm | hm
         · left; exact hm
         · right; exact List.mem_append_left _ hm
+    · have : s.evt = false := he'
+      rw [hev] at this; cases this
     · cases he'
   | cancel i =>
     rcases cancel_spec hs with ⟨hev, _, _, _⟩
@@ -1871,7 +1979,8 @@ thread is always recorded as fatal and sets the event. -/
 theorem timerFire_false_fatal {s s' : St} {i : Nat} (hB : Book n maxConc cfg s)
     (hs : timerFire s i false = some s') :
     s'.fatal = true ∧ s'.evt = true ∧ s'.status i = .pending := by
-  rcases timerFire_spec hB hs with ⟨t, hm, hle, hst, ⟨hok, hout, rfl⟩ | ⟨hc, rfl⟩⟩
+  rcases timerFire_spec hB hs with ⟨t, hm, hle, hst, ⟨hok, hev, rfl⟩ | ⟨hok, hev, rfl⟩ | ⟨hok, rfl⟩⟩
+  · cases hok
   · cases hok
   · exact ⟨rfl, rfl, by simp⟩
 
@@ -1971,7 +2080,8 @@ theorem out_step {s s' : St} {a : Act} (hB : Book n maxConc cfg s) (hs : step s 
     · exact Or.inl rfl
     · exact Or.inl rfl
   | timerFire i ok =>
-    rcases timerFire_spec hB hs with ⟨t, hm, hle, hst, ⟨hok, hout, rfl⟩ | ⟨hc, rfl⟩⟩
+    rcases timerFire_spec hB hs with ⟨t, hm, hle, hst, ⟨hok, hev, rfl⟩ | ⟨hok, hev, rfl⟩ | ⟨hok, rfl⟩⟩
+    · exact Or.inl rfl
     · exact Or.inl rfl
     · exact Or.inl rfl
   | cancel i =>
@@ -1982,5 +2092,58 @@ theorem out_step {s s' : St} {a : Act} (hB : Book n maxConc cfg s) (hs : step s 
 theorem cancel_enabled {s : St} {i : Nat} (he : s.evt = true) (ho : s.out = none)
     (hi : i ∈ s.queue) : (step s (.cancel i)).isSome = true := by
   simp [Par.step, Par.cancel_, he, ho, hi]
+
+
+/-! ## nothing is started after the decision -/
+
+/-- Once the completion event is set, a step never adds to the work queue, and only a queued task can
+become active. -/
+theorem queue_step {s s' : St} {a : Act} (hB : Book n maxConc cfg s) (he : s.evt = true)
+    (hs : step s a = some s') :
+    s'.evt = true ∧ s'.queue ⊆ s.queue ∧ s'.active ⊆ s.active ++ s.queue := by
+  refine ⟨(mono_step hB hs).2.1 he, ?_⟩
+  cases a with
+  | begin i =>
+    rcases begin_spec hs with ⟨rest, hq, _, rfl⟩
+    refine ⟨fun x hx => by rw [hq]; exact List.mem_cons_of_mem _ hx, fun x hx => ?_⟩
+    rcases List.mem_append.1 hx with hx | hx
+    · exact List.mem_append_left _ hx
+    · simp at hx; subst hx
+      exact List.mem_append_right _ (by rw [hq]; simp)
+  | tick d => cases hs; exact ⟨fun _ hx => hx, fun _ hx => List.mem_append_left _ hx⟩
+  | finish i f =>
+    rcases finish_spec hs with ⟨hi, ⟨b, hfb, hb, rfl⟩ | ⟨_, rfl⟩ | ⟨_, rfl⟩⟩
+    · rw [(decide_fields _).2.2.2.1, (decide_fields _).2.2.2.2.1]
+      exact ⟨fun _ hx => hx, fun _ hx => List.mem_append_left _ (List.mem_of_mem_erase hx)⟩
+    · exact ⟨fun _ hx => hx, fun _ hx => List.mem_append_left _ (List.mem_of_mem_erase hx)⟩
+    · exact ⟨fun _ hx => hx, fun _ hx => List.mem_append_left _ (List.mem_of_mem_erase hx)⟩
+  | timerFire i ok =>
+    rcases timerFire_spec hB hs with ⟨t, hm, hle, hst, ⟨hok, hev, rfl⟩ | ⟨hok, hev, rfl⟩ | ⟨hok, rfl⟩⟩
+    · rw [he] at hev; cases hev
+    · exact ⟨fun _ hx => hx, fun _ hx => List.mem_append_left _ hx⟩
+    · exact ⟨fun _ hx => hx, fun _ hx => List.mem_append_left _ hx⟩
+  | cancel i =>
+    rcases cancel_spec hs with ⟨_, _, _, rfl⟩
+    exact ⟨fun _ hx => List.mem_of_mem_erase hx, fun _ hx => List.mem_append_left _ hx⟩
+  | wake =>
+    rcases wake_spec hs with ⟨_, _, rfl⟩
+    exact ⟨fun _ hx => (by cases hx), fun _ hx => List.mem_append_left _ hx⟩
+
+theorem queue_run {s s' : St} (hR : Reach n maxConc cfg s) (he : s.evt = true) (acts : List Act)
+    (hr : runActs s acts = some s') :
+    s'.evt = true ∧ s'.queue ⊆ s.queue ∧ s'.active ⊆ s.active ++ s.queue := by
+  induction acts generalizing s with
+  | nil => cases hr; exact ⟨he, fun _ hx => hx, fun _ hx => List.mem_append_left _ hx⟩
+  | cons a as ih =>
+    simp only [runActs] at hr
+    split at hr
+    · cases hr
+    · rename_i s1 hs1
+      have h1 := queue_step (Inv.of_reach hR).toBook he hs1
+      have h2 := ih (Reach.step a hR hs1) h1.1 hr
+      refine ⟨h2.1, fun x hx => h1.2.1 (h2.2.1 hx), fun x hx => ?_⟩
+      rcases List.mem_append.1 (h2.2.2 hx) with hx | hx
+      · exact h1.2.2 hx
+      · exact List.mem_append_right _ (h1.2.1 hx)
 
 end ParProofs
